@@ -32,6 +32,24 @@ def model_values(model, named):
     return out
 
 
+UF_IMPL = {}   # z3 FuncDecl -> python list (concrete table) used ONLY when searching for counterexamples
+
+
+def register_uf_table(f, table):
+    UF_IMPL[f] = list(table)
+
+
+def _concretise_ufs(e):
+    for f, tab in UF_IMPL.items():
+        srt = f.domain(0)
+        v = z3.Var(0, srt)
+        body = z3.BitVecVal(tab[-1], f.range().size())
+        for k in range(len(tab) - 2, -1, -1):
+            body = z3.If(v == z3.BitVecVal(k, srt.size()), z3.BitVecVal(tab[k], f.range().size()), body)
+        e = z3.substitute_funs(e, (f, body))
+    return e
+
+
 def discharge(stats, hyps, goal, what, named=None, timeout_s=60, tactic=None):
     """prove goal under hyps or raise Violation / Inconclusive"""
     st, m, dt = smt.prove(hyps, goal, timeout_s, stats, tactic)
@@ -55,7 +73,7 @@ def refute_partial(stats, hyps, goal, named, what, tries=6, keep=2):
     if not vars_:
         return None
     for i in range(tries):
-        free = set(rnd.sample(range(len(vars_)), min(keep, len(vars_))))
+        free = set(rnd.sample(range(len(vars_)), min(keep if i % 2 else 0, len(vars_))))
         subs = []
         for j, (k, t) in enumerate(vars_):
             if j in free:
@@ -68,8 +86,8 @@ def refute_partial(stats, hyps, goal, named, what, tries=6, keep=2):
                 subs.append((t, z3.BoolVal(rnd.random() < 0.5)))
         if not subs:
             return None
-        hs = [z3.substitute(h, *subs) for h in hyps]
-        g = z3.substitute(goal, *subs)
+        hs = [_concretise_ufs(z3.substitute(h, *subs)) for h in hyps]
+        g = _concretise_ufs(z3.substitute(goal, *subs))
         st, m, dt = smt.prove(hs, g, 20, stats)
         stats.log.append((what + " [partial %d]" % i, st, round(dt, 3)))
         if st == smt.SAT:
@@ -79,6 +97,36 @@ def refute_partial(stats, hyps, goal, named, what, tries=6, keep=2):
             out.update(model_values(m, {k: t for j, (k, t) in enumerate(vars_) if j in free}))
             return out
     return None
+
+
+def chain_equal(stats, hyps, code_terms, spec_terms, what, named=None, timeout_s=60):
+    """prove code_terms[i] == spec_terms[i] for all i, as a chain of small lemmas: once pair j is proved, both of
+    its terms are replaced by one fresh cut variable in every later pair (sound: they are equal)."""
+    subs = []
+    for i, (a, b) in enumerate(zip(code_terms, spec_terms)):
+        if subs:
+            a2 = z3.substitute(a, *subs)
+            b2 = z3.substitute(b, *subs)
+        else:
+            a2, b2 = a, b
+        if not z3.eq(a2, b2):
+            sa, sb = z3.simplify(a2), z3.simplify(b2)
+            if not z3.eq(sa, sb):
+                try:
+                    discharge(stats, hyps, a2 == b2, "%s [%d]" % (what, i), named, timeout_s)
+                except Violation:
+                    # the cut variables over-approximate; confirm on the original terms before reporting
+                    discharge(stats, hyps, a == b, "%s [%d, uncut]" % (what, i), named, timeout_s)
+                    raise Inconclusive("%s [%d]: fails with cut variables but holds uncut" % (what, i))
+            else:
+                stats.n += 1
+                stats.log.append(("%s [%d]" % (what, i), "equal after rewriting", 0))
+        else:
+            stats.n += 1
+        cut = z3.Const("cut!%s!%d" % (what[:12].replace(" ", "_"), i), a.sort())
+        subs.append((a, cut))
+        if not z3.eq(a, b):
+            subs.append((b, cut))
 
 
 def check_panics(stats, ctx, named=None, timeout_s=30, allow=None):
